@@ -231,7 +231,12 @@ def struct_eq(x, y):
         if not (isinstance(x, tuple) and isinstance(y, tuple)) or len(x) != len(y):
             return False
         return And(*[struct_eq(p, q) for p, q in zip(x, y)]) if x else True
-    return same_value(x, y) if cls_of(x) is cls_of(y) else eq(V(x), V(y))
+    if isinstance(x, str) or isinstance(y, str):
+        return x == y if (isinstance(x, str) and isinstance(y, str)) else False
+    try:
+        return same_value(x, y) if cls_of(x) is cls_of(y) else eq(V(x), V(y))
+    except Exception:            # leaves of different sorts (e.g. a name against a number) are different values
+        return False
 
 
 @contract
@@ -251,6 +256,12 @@ class FrozenHash(Contract):
     def inputs(self, h, cfg):
         h.a, h.attrs_a = make_msg(h, cfg['kind'], True, 'a_')
         h.b, h.attrs_b = make_msg(h, cfg['kind'], True, 'b_')
+        # equal messages need not have been filled in the same order (decode_message stores the channel last, the
+        # constructor second): b's attribute dict is in the reverse insertion order of a's
+        d = attrs_of(h.b) if h.sym else vars(h.b)
+        items = list(d.items())[::-1]
+        d.clear()
+        d.update(items)
         return [h.a, h.b], {}
 
     def ensures(self, h, cfg, a, r):
